@@ -97,3 +97,22 @@ def c12(tier, seed):
 @check("C13")
 def c13(tier, seed):
     return _vocab("C13", tier, seed, 500, "lanes, storage, insert/extract, transpose4, to_scalars, byte loads/stores")
+
+
+from . import check_ppvnull
+
+
+@check("C19")
+def c19(tier, seed):
+    r = Report("C19", tier, "translation_validation", seed)
+    n = check_ppvnull.run(r)
+    r.floor("public methods of the five ppv-null types", n, 76)
+    r.assumptions = ["normalisation laws of engine/bv.py", "rustc MIR construction (dev profile: overflow checks are Assert terminators)"]
+    return r.finish(
+        "Every public method of u32x4, u64x4, u128x1, u128x2, u32x4x4 (the crate's non-generic public roots found by E0) "
+        "is evaluated to a value graph over symbolic lanes and compared with the lane-wise scalar definition; rotation "
+        "amounts and lane indices are split over their whole documented domain (1..bits-1, valid indices). "
+        "R19.2: an Assert terminator (overflow/bounds, dev profile) whose condition does not fold to a constant, or a "
+        "reachable panic call, is a violation.",
+        trusted_base=["engine/bv.py laws", "engine/models.py core models", "rustc front end"],
+        coverage_extra={"exhaustive": True})
